@@ -6,6 +6,7 @@ typedef struct { size_t pos; } occ_t;       /* reference to the occurrence at a 
 typedef struct { _Bool has; process_result v; } optres_t;
 extern size_t g_len; extern unsigned g_epoch;          /* abstract pool: number of occurrences, iterator epoch */
 extern unsigned g_dispatches; extern size_t g_erased;
+extern size_t g_nondef;        /* ghost: dispatches whose outcome was anything but 'only deferred again': each is one PROCESSED event of the drain's budget, handled or not */
 #define SIZE_CAP 1000000
 pit_t pool_begin(fsm_t* self)
 __CPROVER_assigns()
@@ -43,14 +44,17 @@ optres_t occ_try_process(occ_t ev, fsm_t* self, uint16_t seq)
 __CPROVER_requires(!g_marked_here)                                               /*@ob C04,C05.a-processed-occurrence-is-never-dispatched-again */
 __CPROVER_requires(seq == self->event_pool.cur_seq_cnt)                          /*@ob C05.current-cycle-number-passed-to-the-occurrence */
 __CPROVER_requires(ev.pos < g_len)
-__CPROVER_assigns(g_len, g_epoch, g_dispatches, g_marked_here)
+__CPROVER_assigns(g_len, g_epoch, g_dispatches, g_marked_here, g_nondef)
+__CPROVER_ensures(g_nondef == __CPROVER_old(g_nondef) + ((__CPROVER_return_value.has && (int)__CPROVER_return_value.v != HANDLED_DEFERRED) ? 1 : 0))
 __CPROVER_ensures(__CPROVER_return_value.has ==> (g_dispatches == __CPROVER_old(g_dispatches) + 1 && g_dispatches > __CPROVER_old(g_dispatches) && g_len >= __CPROVER_old(g_len) && g_len < SIZE_CAP && g_marked_here))
 __CPROVER_ensures(!__CPROVER_return_value.has ==> (g_dispatches == __CPROVER_old(g_dispatches) && g_len == __CPROVER_old(g_len) && g_epoch == __CPROVER_old(g_epoch) && !g_marked_here))
 __CPROVER_ensures(0 <= (int)__CPROVER_return_value.v && (int)__CPROVER_return_value.v <= 7)
 ;
 size_t do_process_event_pool(fsm_t* self, size_t max_events)
-__CPROVER_requires(__CPROVER_is_fresh(self, sizeof(*self)) && 1 <= g_len && g_len < SIZE_CAP && max_events >= 1 && g_dispatches == 0 && g_erased == 0)
-__CPROVER_assigns(self->event_pool.cur_seq_cnt, g_len, g_epoch, g_dispatches, g_erased, g_marked_here)
+__CPROVER_requires(__CPROVER_is_fresh(self, sizeof(*self)) && 1 <= g_len && g_len < SIZE_CAP && max_events >= 1 && g_dispatches == 0 && g_erased == 0 && g_nondef == 0)
+__CPROVER_assigns(self->event_pool.cur_seq_cnt, g_len, g_epoch, g_dispatches, g_erased, g_marked_here, g_nondef)
 __CPROVER_ensures(__CPROVER_return_value <= g_dispatches)                        /*@ob C04.processed-count-counts-only-dispatched-occurrences */
 __CPROVER_ensures(__CPROVER_return_value <= max_events)                          /*@ob C04.single-step-variant-stops-after-max-events */
+__CPROVER_ensures(__CPROVER_return_value == g_nondef)                            /*@ob C04.every-dispatched-event-counts-as-processed-whether-or-not-it-was-handled */
+__CPROVER_ensures(g_nondef <= max_events)                                        /*@ob C04.a-bounded-drain-dispatches-at-most-max-events-events-the-single-step-exactly-the-oldest */
 ;
